@@ -37,7 +37,7 @@ type ConfSpec struct {
 // Op is one step of the admission history, executed identically (through
 // the decoded entry) in every world.
 type Op struct {
-	Kind   string `json:"k"` // "q" query | "adv" advance clock | "zonefail"
+	Kind   string `json:"k"` // "q" query | "adv" advance clock | "zonefail" | "purge" (Cache.Purge of Name/Qtype, both CD partitions)
 	Name   string `json:"n,omitempty"`
 	Qtype  uint16 `json:"t,omitempty"`
 	DO     bool   `json:"do,omitempty"`
@@ -67,6 +67,45 @@ type Group struct {
 	Proto   string   `json:"proto"` // "udp" | "tcp"
 	History []Op     `json:"history"`
 	Pkts    []Pkt    `json:"pkts"`
+	// Sessions are multi-step client conversations (one source address each),
+	// served after the packets; see SessStep.
+	Sessions []Session `json:"sessions,omitempty"`
+}
+
+// Session is a sequence of queries from ONE client address over changing
+// transports and with changing DNS cookies. The packets of a step are built
+// inside each world from that world's own earlier replies (a server cookie is
+// parsed out of the reply of step k and echoed in a later step), exactly as a
+// real client would.
+type Session struct {
+	Client string     `json:"client"` // IP only; each step adds its own port
+	Steps  []SessStep `json:"steps"`
+}
+
+// SessStep is one query of a session.
+type SessStep struct {
+	Proto  string `json:"proto"` // "udp" | "tcp"
+	Port   int    `json:"port"`
+	ID     uint16 `json:"id"`
+	Name   string `json:"n"`
+	Qtype  uint16 `json:"t"`
+	DO     bool   `json:"do,omitempty"`
+	CD     bool   `json:"cd,omitempty"`
+	AD     bool   `json:"ad,omitempty"`
+	NoEDNS bool   `json:"noedns,omitempty"`
+	NSID   bool   `json:"nsid,omitempty"`
+	Case   int    `json:"case,omitempty"` // 0 as is, 1 upper-cased question
+	// Cookie: "none" | "cc" (client cookie only) | "echo" (the complete cookie
+	// of the most recent reply at or before step Ref that carried one) |
+	// "graft" (this step's client cookie + the server half issued at Ref for
+	// whatever client cookie that step used) | "wrong" (client cookie + Junk) |
+	// "badlen" (client cookie + Junk of an illegal length)
+	Cookie string `json:"cookie"`
+	CC     string `json:"cc,omitempty"`   // client cookie, 16 hex digits
+	Ref    int    `json:"ref,omitempty"`  // step index the server half is taken from
+	Junk   string `json:"junk,omitempty"` // hex
+	Kind   string `json:"kind"`           // evidence / signature label
+	Target string `json:"target,omitempty"`
 }
 
 // ---------------------------------------------------------------------
@@ -122,6 +161,120 @@ func q(state, name string, qtype uint16) Op {
 
 // genHistory builds the admission history and the target pool for a group.
 func genHistory(rng *rand.Rand, conf ConfSpec) ([]Op, []target) {
+	return genHistoryMixed(rng, nil, conf)
+}
+
+// mixedChain draws one alias chain whose hops carry per-invocation attributes
+// (see universe.go) plus the ops that admit it (phase 1) and later re-admit
+// single hops (phase 2), so that the hops of the cached chain end up with
+// different header bits, signatures, EDE and ages.
+func mixedChain(rng *rand.Rand, conf ConfSpec) (phase1, phase2 []Op, targets []target) {
+	nib := func() int {
+		v := 0
+		if rng.IntN(10) < 6 {
+			v |= 1 // AD
+		}
+		if rng.IntN(10) < 4 {
+			v |= 2 // RRSIG
+		}
+		if rng.IntN(4) == 0 {
+			v |= 4 // EDE
+		}
+		if rng.IntN(4) == 0 {
+			v |= 8 // short TTL
+		}
+		return v
+	}
+	spec := func() string {
+		v := nib()
+		out := fmt.Sprintf("%x", v)
+		for g := 0; g < 2; g++ {
+			// every re-admission changes something; the AD bit half of the time
+			mask := 1 + rng.IntN(15)
+			if rng.IntN(2) == 0 {
+				mask |= 1
+			} else {
+				mask &^= 1
+				if mask == 0 {
+					mask = 2 << rng.IntN(3)
+				}
+			}
+			v ^= mask
+			out += fmt.Sprintf("%x", v)
+		}
+		return out
+	}
+	zone := zoneS
+	if rng.IntN(2) == 0 {
+		zone = zoneU
+	}
+	id := fmt.Sprintf("%d", 1+rng.IntN(900))
+	// labels, terminal first
+	label := "mt-" + spec() + "-" + id
+	hops := []string{label + "." + zone}
+	depth := 1
+	if rng.IntN(10) < 3 {
+		depth = 2
+	}
+	for d := 0; d < depth; d++ {
+		label = "mc-" + spec() + "-" + label
+		hops = append([]string{label + "." + zone}, hops...)
+	}
+	head := hops[0]
+	withCD := rng.IntN(4) == 0
+	mq := func(name string, cd bool) Op {
+		o := q("chain-mixed", name, dns.TypeA)
+		o.DO = rng.IntN(3) != 0
+		o.CD = cd
+		return o
+	}
+	phase1 = append(phase1, mq(head, false))
+	if withCD {
+		phase1 = append(phase1, mq(head, true))
+	}
+	n := 1 + rng.IntN(3)
+	advAt := -1
+	if rng.IntN(4) == 0 {
+		advAt = rng.IntN(n + 1)
+	}
+	for a := 0; a <= n; a++ {
+		if a == advAt {
+			phase2 = append(phase2, Op{Kind: "adv", Secs: 1 + rng.IntN(45), State: "chain-mixed"})
+		}
+		if a == n {
+			break
+		}
+		h := rng.IntN(len(hops))
+		if rng.IntN(10) < 7 {
+			phase2 = append(phase2, Op{Kind: "purge", Name: hops[h], Qtype: dns.TypeA, State: "chain-mixed"})
+		}
+		// re-admit: ask the hop itself, or the head of the chain (the chase
+		// re-resolves whatever is missing)
+		ask := hops[h]
+		if rng.IntN(2) == 0 {
+			ask = head
+		}
+		phase2 = append(phase2, mq(ask, false))
+		if withCD && rng.IntN(2) == 0 {
+			phase2 = append(phase2, mq(ask, true))
+		}
+	}
+	for i, h := range hops {
+		st := "chain-mixed"
+		if i == len(hops)-1 {
+			st = "chain-mixed-hop"
+		}
+		targets = append(targets, target{name: h, qtype: dns.TypeA, state: st})
+	}
+	if withCD {
+		targets = append(targets, target{name: head, qtype: dns.TypeA, state: "chain-mixed", wantCD: true})
+	}
+	return phase1, phase2, targets
+}
+
+// genHistoryMixed is genHistory plus, when mrng is non-nil, mixed alias chains
+// drawn from mrng (a separate stream: the base history stays what it was).
+func genHistoryMixed(rng, mrng *rand.Rand, conf ConfSpec) ([]Op, []target) {
 	id := func() string { return fmt.Sprintf("%d", 1+rng.IntN(900)) }
 	var early, late []Op // early ops come before the optional clock advance
 	var pool []target
@@ -299,6 +452,24 @@ func genHistory(rng *rand.Rand, conf ConfSpec) ([]Op, []target) {
 	hist = append(hist, late...)
 	if conf.Prefetch > 0 && rng.IntN(2) == 0 {
 		hist = append(hist, Op{Kind: "adv", Secs: 1 + rng.IntN(30)})
+	}
+	if mrng != nil {
+		// mixed chains: admitted before everything else, single hops re-admitted
+		// after everything else (so the group's own clock advance ages them too)
+		var first, last []Op
+		chains := 2
+		if conf.Prefetch > 0 {
+			// every step that causes an internal request costs a full quiescence
+			// wait where prefetch workers exist
+			chains = 1
+		}
+		for c := 0; c < chains; c++ {
+			p1, p2, ts := mixedChain(mrng, conf)
+			first = append(first, p1...)
+			last = append(last, p2...)
+			pool = append(pool, ts...)
+		}
+		hist = append(append(first, hist...), last...)
 	}
 	return hist, pool
 }
@@ -617,8 +788,17 @@ func hostileName(rng *rand.Rand) ([]byte, string) {
 
 // genPacket draws one query packet for a target.
 func genPacket(rng *rand.Rand, t target, proto string) ([]byte, []string) {
+	return genPacketShaped(rng, t, proto, false)
+}
+
+// genPacketShaped is genPacket; forceClean restricts the draw to packets the
+// strict parser admits (used where the wire ladder itself is the subject).
+func genPacketShaped(rng *rand.Rand, t target, proto string, forceClean bool) ([]byte, []string) {
 	var tags []string
 	clean := rng.IntN(100) < 55
+	if forceClean {
+		clean = true
+	}
 	hz := func(n int) bool { return !clean && rng.IntN(n) == 0 }
 	if clean {
 		tags = append(tags, "clean")
@@ -794,8 +974,136 @@ func clientFor(rng *rand.Rand, i int) string {
 	}
 }
 
-// genGroup draws one complete group.
-func genGroup(rng *rand.Rand, index int, seed uint64, npkts int) *Group {
+// Cookie labels of a session's client (fixed 8-octet client cookies).
+var sessClientCookies = []string{"c05c11e47a000001", "c05c11e47b000002", "c05c11e47c000003"}
+
+// sessionQuestions are the questions session steps draw from: cached state,
+// misses (inline handoff + replay) and local data.
+func sessionQuestions(pool []target) []target {
+	var out []target
+	for _, t := range pool {
+		if t.class != 0 || t.wantECS {
+			continue
+		}
+		switch t.state {
+		case "positive", "nodata", "nxdomain", "chain-full", "chain-chased", "chain-mixed", "chain-mixed-hop", "miss", "signed", "ad", "hosts", "failure", "cut":
+			out = append(out, t)
+		}
+	}
+	return out
+}
+
+// genSession draws one client conversation. The limiter is keyed by source
+// address, so every session has an address of its own (non-loopback: loopback
+// is exempt from the client limiter) and starts with a full bucket.
+func genSession(rng *rand.Rand, conf ConfSpec, pool []target, si int) Session {
+	qs := sessionQuestions(pool)
+	ss := Session{Client: fmt.Sprintf("192.0.2.%d", 20+si)}
+	if rng.IntN(4) == 0 {
+		ss.Client = fmt.Sprintf("2001:db8:5e55::%x", 1+si)
+	}
+	cur := rng.IntN(len(sessClientCookies))
+	base := func() SessStep {
+		t := qs[rng.IntN(len(qs))]
+		st := SessStep{Proto: "udp", Port: 1024 + rng.IntN(60000), ID: uint16(rng.IntN(65536)), Name: t.name, Qtype: t.qtype,
+			DO: rng.IntN(2) == 0, CD: rng.IntN(7) == 0, AD: rng.IntN(7) == 0, NSID: rng.IntN(6) == 0, Target: t.state}
+		if rng.IntN(5) == 0 {
+			st.Case = 1
+		}
+		return st
+	}
+	junk := func(n int) string { return hex.EncodeToString(randBytes(rng, n)) }
+	cookieStep := func(k int) SessStep {
+		st := base()
+		if rng.IntN(100) < 35 {
+			st.Proto = "tcp"
+		}
+		if rng.IntN(10) < 4 {
+			cur = (cur + 1 + rng.IntN(len(sessClientCookies)-1)) % len(sessClientCookies)
+		}
+		st.CC = sessClientCookies[cur]
+		st.Ref = k - 1
+		switch x := rng.IntN(100); {
+		case x < 38 && k > 0:
+			st.Cookie = "echo"
+			st.Kind = "echo-last"
+		case x < 48 && k > 1:
+			st.Cookie = "echo"
+			st.Ref = rng.IntN(k - 1)
+			st.Kind = "echo-earlier"
+		case x < 68:
+			st.Cookie = "cc"
+			st.Kind = "cc"
+		case x < 76:
+			st.Cookie = "none"
+			st.Kind = "none"
+			if rng.IntN(3) == 0 {
+				st.NoEDNS = true
+				st.Kind = "noedns"
+			}
+		case x < 84 && k > 0:
+			st.Cookie = "graft"
+			st.Kind = "graft"
+			if k > 1 && rng.IntN(2) == 0 {
+				st.Ref = rng.IntN(k)
+			}
+		case x < 95:
+			st.Cookie = "wrong"
+			st.Junk = junk([]int{8, 16, 32, 32}[rng.IntN(4)])
+			st.Kind = "wrong"
+		default:
+			st.Cookie = "badlen"
+			st.Junk = junk([]int{1, 3, 7, 33}[rng.IntN(4)])
+			st.Kind = "badlen"
+		}
+		st.Kind = st.Proto + "." + st.Kind
+		return st
+	}
+	n := 6 + rng.IntN(12)
+	burstAt := -1
+	if conf.ClientRate > 0 {
+		burstAt = n/2 + rng.IntN(n-n/2+1)
+	}
+	k := 0
+	for i := 0; i <= n; i++ {
+		if i == burstAt {
+			// a burst sized to the limiter: one shape, one question, repeated
+			// until the bucket must be empty
+			tmpl := base()
+			tmpl.CC = sessClientCookies[cur]
+			switch rng.IntN(4) {
+			case 0, 1:
+				tmpl.Cookie, tmpl.Kind = "none", "burst-none"
+			case 2:
+				tmpl.Cookie, tmpl.Kind = "cc", "burst-cc"
+				tmpl.CC = sessClientCookies[(cur+1)%len(sessClientCookies)]
+			default:
+				tmpl.Cookie, tmpl.Kind, tmpl.Junk = "wrong", "burst-wrong", junk(32)
+			}
+			if rng.IntN(5) == 0 {
+				tmpl.Proto = "tcp"
+			}
+			tmpl.Kind = tmpl.Proto + "." + tmpl.Kind
+			for b := 0; b < conf.ClientRate+2+rng.IntN(3); b++ {
+				st := tmpl
+				st.ID = uint16(rng.IntN(65536))
+				st.Port = 1024 + rng.IntN(60000)
+				ss.Steps = append(ss.Steps, st)
+				k++
+			}
+		}
+		if i == n {
+			break
+		}
+		ss.Steps = append(ss.Steps, cookieStep(k))
+		k++
+	}
+	return ss
+}
+
+// genGroup draws one complete group. xrng (may be nil) is a second stream for
+// the mixed alias chains, their dedicated packets and the client sessions.
+func genGroup(rng, xrng *rand.Rand, index int, seed uint64, npkts int) *Group {
 	g := &Group{Index: index, Seed: seed}
 	g.Conf = confs[index%len(confs)]
 	if (index/len(confs))%2 == 0 {
@@ -803,18 +1111,21 @@ func genGroup(rng *rand.Rand, index int, seed uint64, npkts int) *Group {
 	} else {
 		g.Proto = "tcp"
 	}
-	hist, pool := genHistory(rng, g.Conf)
+	hist, pool := genHistoryMixed(rng, xrng, g.Conf)
 	g.History = hist
 	// local-data targets only make sense where the data is configured; keep
 	// them everywhere anyway (they are plain misses elsewhere) but sample
 	// state targets twice as often.
-	var stateful, other []target
+	var stateful, other, mixed []target
 	for _, t := range pool {
 		switch t.state {
 		case "hosts", "as112", "chaos", "class", "miss", "root", "unknown-type", "meta-type":
 			other = append(other, t)
 		default:
 			stateful = append(stateful, t)
+		}
+		if t.state == "chain-mixed" {
+			mixed = append(mixed, t)
 		}
 	}
 	for i := 0; i < npkts; i++ {
@@ -826,6 +1137,25 @@ func genGroup(rng *rand.Rand, index int, seed uint64, npkts int) *Group {
 		}
 		pkt, tags := genPacket(rng, t, g.Proto)
 		g.Pkts = append(g.Pkts, Pkt{Hex: hex.EncodeToString(pkt), Client: clientFor(rng, i), Target: t.state, Shape: strings.Join(tags, ",")})
+	}
+	if xrng == nil {
+		return g
+	}
+	// packets the strict parser admits, aimed at the heads of the mixed chains
+	// (the wire composer has to serve them for the chains to be judged)
+	for i := 0; i < 2 && len(mixed) > 0; i++ {
+		t := mixed[xrng.IntN(len(mixed))]
+		pkt, tags := genPacketShaped(xrng, t, g.Proto, true)
+		g.Pkts = append(g.Pkts, Pkt{Hex: hex.EncodeToString(pkt), Client: clientFor(xrng, npkts+i), Target: t.state, Shape: strings.Join(tags, ",")})
+	}
+	if g.Conf.Cookie != "" {
+		ns := 1
+		if g.Conf.ClientRate > 0 {
+			ns = 2
+		}
+		for si := 0; si < ns; si++ {
+			g.Sessions = append(g.Sessions, genSession(xrng, g.Conf, pool, si))
+		}
 	}
 	return g
 }
